@@ -100,6 +100,10 @@ def run(quiet=False):
         rb = {c.bb for c in b.calls(r'^rollback$')}
         tests = result_tests(b, st)
         expect('state-paths:' + fn, must_pass_state(b, st.ret, tests, 'err', rb)[0], want)
+    # error of a fallback call: the path `Err arm -> first? -> Ok` is infeasible (first is known to be Err there)
+    for fn, want in (('open_with_fallback', 'ERR-RETURNED'), ('open_with_fallback_swallowing', 'HANDLED-ARM')):
+        c = B(fn).calls(r'^std::fs::File::open$')[0]
+        expect('err-correlated:' + fn, err_handling(B(fn), c)[0], want)
     # buffered writers
     from .rules.common import buffered_drops
     for fn, want in (('buffered_dropped_unflushed', [False]), ('buffered_flushed', [True]), ('buffered_flush_ignored', [False]), ('buffered_flushed_by_callee', [True])):
